@@ -44,7 +44,7 @@ CHECKS = {
   "DESIGN.md section 5 C03"),
  "C04": ("exploration",
   "runtime monitoring: strict RFC 5321/2034 reply parser, per-command reply accounting, token attribution, differential execution across sending disciplines, gate-controlled overlap matrix",
-  "The history workload is executed lock-step (per-command arity, syntax, enhanced-code class, unique-token attribution of every backend verdict) and again as pipelined groups and randomly re-cut segments whose reply-code and callback sequences must equal the lock-step run; an overlap matrix enumerates all orders in which a parked delivery of an aborted chunked transaction, the completion of the next transaction and its delivery can happen (gates in the harness backend, no sleeps); control octets are injected at eight reply-echo sites; clock cases let a long (virtual) time pass before each step of a plaintext / implicit-TLS / STARTTLS conversation and fire the deadline of every direction whose timeout is not configured: every step must still be answered.",
+  "The history workload is executed lock-step (per-command arity, syntax, enhanced-code class, unique-token attribution of every backend verdict) and again as pipelined groups and randomly re-cut segments whose reply-code and callback sequences must equal the lock-step run; an overlap matrix enumerates all orders in which a parked delivery of an aborted chunked transaction, the completion of the next transaction and its delivery can happen (gates in the harness backend, no sleeps); control octets are injected at eight reply-echo sites; clock cases let a long (virtual) time pass before each step of a plaintext / implicit-TLS / STARTTLS conversation and fire the deadline of every direction whose timeout is not configured: every step must still be answered; slow-callback cases park Mail / Rcpt while DATA or BDAT is already pipelined and let the read deadline expire meanwhile.",
   "Reply wording and codes are judged only where the statement fixes them; 8-bit reply text not judged.",
   "DESIGN.md section 5 C04"),
  "C19": ("exploration",
@@ -104,7 +104,7 @@ CHECKS = {
   "DESIGN.md section 5 C15"),
  "C20": ("exploration",
   "runtime monitoring: Go race detector over enumerated event orders and close/callback overlaps; porcupine linearizability check of concurrent Close/Shutdown histories; termination and goroutine-table checks; scripted Accept errors",
-  "Under the race-detector build (GOMAXPROCS default and 1; also 4 and a non-race pass in thorough): all orders of up to three (thorough: four) harness events from {delivery completes, RSET, next transaction, QUIT, disconnect, Server.Close, Server.Shutdown} against a parked BDAT delivery, a parked LMTP DATA delivery, a parked LMTP BDAT delivery and a parked BDAT delivery of an LMTP server over a plain Session; connections idle, in their implicit-TLS handshake, stalled inside a STARTTLS handshake or only just handed out by Accept when Close / Shutdown fires; Shutdown with a context that has already expired; Server.Close overlapping each callback kind parked on a gate, and called directly from callbacks; groups of 2..8 barrier-released Close/Shutdown callers on one or two listeners (one of them failing to close) whose recorded call/return history is checked by porcupine against the sequential model 'first caller gets the listener result, later ones ErrServerClosed'; all sequences of up to five temporary/permanent Accept errors; replays of C03/C05/C13 cases for race coverage. Race reports are parsed, de-duplicated by racing statement pair and are violations; Serve/handlers/deliveries must terminate and no library goroutine may remain at the end.",
+  "Under the race-detector build (GOMAXPROCS default and 1; also 4 and a non-race pass in thorough): all orders of up to three (thorough: four) harness events from {delivery completes, RSET, next transaction, QUIT, disconnect, Server.Close, Server.Shutdown} against a parked BDAT delivery, a parked LMTP DATA delivery, a parked LMTP BDAT delivery, a parked BDAT delivery of an LMTP server over a plain Session and a BDAT delivery of a backend that serialises Data and Reset with its own mutex; connections idle, in their implicit-TLS handshake, stalled inside a STARTTLS handshake only just handed out by Accept, or handed out at the very moment the listener is closed, when Close / Shutdown fires; Shutdown with a context that has already expired; Server.Close overlapping each callback kind parked on a gate, and called directly from callbacks; groups of 2..8 barrier-released Close/Shutdown callers on one or two listeners (one of them failing to close) whose recorded call/return history is checked by porcupine against the sequential model 'first caller gets the listener result, later ones ErrServerClosed'; all sequences of up to five temporary/permanent Accept errors; replays of C03/C05/C13 cases for race coverage. Race reports are parsed, de-duplicated by racing statement pair and are violations; Serve/handlers/deliveries must terminate and no library goroutine may remain at the end.",
   "The race detector sees only executed accesses; interleavings are diversified by enumerated orders, gates, yields and GOMAXPROCS, not exhausted.",
   "DESIGN.md section 5 C20"),
 }
